@@ -5,6 +5,8 @@ import importlib, os, sys
 sys.path.insert(0, os.path.join(os.path.dirname(os.path.abspath(__file__)), "..", "models"))
 import pe as _pe
 import msi as _msi
+import jar as _jar
+import apk as _apk
 _c09 = importlib.import_module("props.c09")
 _c19 = importlib.import_module("props.c19")
 
@@ -16,18 +18,49 @@ RULE = ("ops of the models that carry the model-vs-specification theorems: " + _
 ASSUMPTIONS = list(_pe.ASSUMPTIONS) + list(_msi.ASSUMPTIONS) + ["the specifications are transcribed by hand into Relic/Spec/{Authenticode,PEChecksum,ApkV2,MsiDigest}.lean"]
 TRUSTED = list(_pe.TRUSTED) + list(_msi.TRUSTED) + ["external reference verifiers (jarsigner, JDK XML-DSig, openssl cms/ts, gpgv, dpkg) are NOT run: that half of C05 is outside this technique (DESIGN.md section 5, C05)"]
 UNPROVED = ["pe_hash_eq_msdoc_spec (the section-sorted wording of the Microsoft document; the flat form is proved)",
-            "pe_pagehash_eq_spec", "cab_digest_eq_spec", "jar_sf_eq_spec",
+            "pe_pagehash_eq_spec", "cab_digest_eq_spec", "jar_sections_first_blank_line_full", "jar_fold_unfold_section_full",
             "msi_order_eq_spec holds under hypotheses (well-formed, pairwise distinct sibling names; no signature name below the root); "
             "outside them the code and the specification differ: msi_cmp_differs_embedded_nul"]
 IMPL_PARALLEL = 8
 
 
+class _JarAdapter:
+    """models/jar.py takes the property id as first argument of predicate"""
+    nontrivial = staticmethod(_jar.nontrivial)
+    branch = staticmethod(_jar.branch)
+    matches_known = staticmethod(_jar.matches_known)
+
+    @staticmethod
+    def agree(op, il, mres, tag):
+        return _jar.equiv(op, il, mres)
+
+    @staticmethod
+    def predicate(op, il, mres, tag):
+        return _jar.predicate("C05", op, il, mres, tag)
+
+
+class _ApkAdapter:
+    nontrivial = staticmethod(_apk.nontrivial)
+    branch = staticmethod(_apk.branch)
+    matches_known = staticmethod(_apk.matches_known)
+
+    @staticmethod
+    def agree(op, il, mres, tag):
+        return _apk.equiv(op, il, mres)
+
+    @staticmethod
+    def predicate(op, il, mres, tag):
+        return _apk.predicate("C05", op, il, mres, tag)
+
+
 def _m(op):
     t = op.split(" ", 1)[0]
-    return {"PE": None, "C09": _c09, "C19": _c19}.get(t)
+    return {"PE": None, "JAR": _JarAdapter, "APK": _ApkAdapter, "C09": _c09, "C19": _c19}.get(t)
 
 
 def canon_model(op, mres):
+    if op.startswith("JAR "):
+        return _jar.canon_model(op, mres)
     if op.startswith("MSI "):
         return _msi.canon_model(op, mres)
     return _pe.canon_model(op, mres) if op.startswith("PE ") else mres
